@@ -72,6 +72,7 @@ type vfCred struct {
 	Proven  int
 	AuthAt  time.Time
 	Valid   bool
+	Certain bool // well inside its validity window (token times are whole seconds): only then MUST it be served
 }
 
 // credentials the model accepts as presented with this request (ground truth)
@@ -96,7 +97,8 @@ func (m *vfModel) credsOf(ctx *vfReqCtx) []vfCred {
 			if ci.Kind == "cli" {
 				valid = valid && true
 			}
-			out = append(out, vfCred{Kind: "cookie", Subject: ci.Subject, Proven: ci.Carried, AuthAt: ci.AuthAt, Valid: valid})
+			certain := now.Before(ci.Exp.Add(-time.Second)) && !now.Before(ci.AuthAt.Add(time.Second)) && !time.Now().After(ci.Exp.Add(-time.Second))
+			out = append(out, vfCred{Kind: "cookie", Subject: ci.Subject, Proven: ci.Carried, AuthAt: ci.AuthAt, Valid: valid, Certain: valid && certain})
 		}
 	}
 	if ctx.req.Cert != nil && !ctx.req.NoTLS {
@@ -186,7 +188,7 @@ func (m *vfModel) observeCertgen(ctx *vfReqCtx, in *vfIntent, resp *vfResp) {
 		}
 		// "A user who did complete an acceptable factor is served": only in the
 		// clean case (one cookie credential, valid request, no fault in flight).
-		if justified && w.cleanWindow() && len(creds) == 1 && creds[0].Kind == "cookie" && cr.Method == "POST" &&
+		if justified && w.cleanWindow() && len(creds) == 1 && creds[0].Kind == "cookie" && creds[0].Certain && cr.Method == "POST" &&
 			in.Why == nil && vfServedFactors(creds[0].Proven, listed) {
 			w.violate("C01", "not-served", fmt.Sprintf("not-served:%d", resp.Code),
 				fmt.Sprintf("user %s with proven %s (listed %v) was refused with %d: %s", cr.URLUser, vfLevelString(creds[0].Proven), w.cfg.CertBackends, resp.Code, vfShort(strings.TrimSpace(string(resp.Body)))))
